@@ -77,6 +77,8 @@ def configs(tier, seed):
         cfgs.append({"tree": ["F", "u0", "nc"], "access": acc, "via": "arg"})
     cfgs.append({"tree": ["D", [["a", ["F", "u3", "r"]], ["b", ["F", "u0", "rw"]], ["c", ["F", "s4", "w"]], ["_d", ["F", "e2", "nc"]]]], "access": "rw", "via": "arg"})
     cfgs.append({"tree": ["D", [["a", ["F", "u3", "r"]], ["b", ["F", "u8", "rw"]]]], "access": "rw", "via": "annot"})
+    cfgs.append({"tree": ["D", [["a", ["F", "u3", "r"]], ["b", ["F", "u8", "rw"]], ["c", ["F", "s4", "rw"]]]], "access": "rw", "via": "annot_sub"})
+    cfgs.append({"tree": ["D", [["zz", ["F", "u8", "w"]]]], "access": "w", "via": "annot_sub"})
     cfgs.append({"tree": ["L", [["F", "u1", "rw"], ["L", [["F", "u3", "r"], ["F", "e2", "w"]]], ["D", [["x", ["F", "s4", "rw"]]]]]], "access": "rw", "via": "arg"})
     cfgs.append({"tree": ["D", [["a", ["F", "u3", "rw"]]]], "access": "r", "via": "arg"})     # must be rejected
     cfgs.append({"tree": ["D", [["a", ["F", "u3", "r"]]]], "access": "w", "via": "arg"})      # must be rejected
@@ -84,7 +86,7 @@ def configs(tier, seed):
     for i in range(n):
         tree = gen_tree(rng, rng.randint(0, 3), [rng.randint(1, 6)])
         acc = rng.choice(["r", "w", "rw", "rw"])
-        via = "annot" if (tree[0] == "D" and rng.random() < 0.25) else "arg"
+        via = rng.choice(["annot", "annot", "annot_sub"]) if (tree[0] == "D" and rng.random() < 0.3) else "arg"
         cfgs.append({"tree": tree, "access": acc, "via": via})
     return cfgs
 
@@ -117,7 +119,16 @@ def build(cfg):
 
     fields = conv(cfg["tree"])
     try:
-        if cfg["via"] == "annot" and isinstance(fields, dict):
+        if cfg["via"] == "annot_sub" and isinstance(fields, dict):
+            # a register class derived from another annotation-defined register class that has ALREADY been instantiated, with
+            # field annotations of its own: it is packed from its own annotations (classes must not share layout state either)
+            racc = cfg["access"]
+            base_ns = {"__annotations__": {"zz": csr.Field(Probe, 5, "r" if racc != "w" else "w", -1), "yy": csr.Field(Probe, 2, "nc", -1)}}
+            base = type("BaseReg", (csr.Register,), base_ns, access=racc)
+            base()
+            cls = type("DerivedReg", (base,), {"__annotations__": dict(fields)})
+            reg = cls()
+        elif cfg["via"] == "annot" and isinstance(fields, dict):
             ns = {"__annotations__": dict(fields)}
             cls = type("AnnotReg", (csr.Register,), ns, access=cfg["access"])
             reg = cls()
